@@ -1,6 +1,8 @@
 (* C07 -- Alternatives are exclusive and chosen by what the user typed.
    Property theorems only; proofs live in Lemmas/. *)
-From BpafLemmas Require Import Tac Reach Ledger NoLoss C05Lemmas OkReach OkLaws PickLaws.
+From Coq Require Import Sorted.
+From BpafLemmas Require Import TotalLaws.
+From BpafLemmas Require Import Tac Reach Ledger NoLoss C05Lemmas OkReach OkLaws PickLaws ManyOrder ManyOrderList.
 
 (* The decision rule of `a.or_else(b)` / construct!([a, b]) as a function of what the two forks did. *)
 Theorem C07_deeper_wins :
@@ -81,6 +83,41 @@ Theorem C07_exclusive :
     forall v s', run_sub env (Options (POr a b) inf) s <> (SOk v, s').
 Proof. exact or_exclusive. Qed.
 Print Assumptions C07_exclusive.
+
+(* "wrapped in many / some the collected values follow command-line order" -- one round of the repetition: a choice
+   between two required flags (different names, no environment variables) whose leftmost available occurrences stand
+   at i and j takes the item at min i j and yields the value of the flag that owns it; the other fork's item stays
+   available, marked as a conflict, for the next round.  The rounds therefore consume the occurrences from left to
+   right whichever flag they belong to (the whole list: C07_repeated_choice_in_line_order below).  PARTIAL: alternatives
+   that are not single flags are decided by the oracle (collected values vs command-line order) *)
+Theorem C07_repeated_choice_takes_leftmost_partial :
+  forall env na va nb vb s i j x y,
+    n_env na = [] -> n_env nb = [] ->
+    find_item s (fun _ a => matches_arg na false a) = Some i ->
+    find_item s (fun _ a => matches_arg nb false a) = Some j ->
+    i <> j -> ist_at s i = Some x -> ist_at s j = Some y -> 1 <= remaining s ->
+    or_body (eval_flag env na va None) (eval_flag env nb vb None) s =
+    if Nat.ltb i j
+    then (ROk va, save_conflicts (sremove (KFlag na) i s) (sremove (KFlag nb) j s) i)
+    else (ROk vb, save_conflicts (sremove (KFlag nb) j s) (sremove (KFlag na) i s) j).
+Proof. exact choice_takes_leftmost. Qed.
+Print Assumptions C07_repeated_choice_takes_leftmost_partial.
+
+(* ... and the whole list: `many` over a choice between two required flags with different names (no environment
+   variables) returns a list whose values, read from the head, were taken from STRICTLY INCREASING positions of the line
+   -- every one an available in-scope occurrence of one of the two names -- each value being the one of the flag whose
+   consumer took that position; the consumption log records exactly these rounds (ManyOrderList.v).  For alternatives
+   that are not single flags the order is decided by the oracle. *)
+Theorem C07_repeated_choice_in_line_order :
+  forall env na nb va vb,
+    n_env na = [] -> n_env nb = [] -> flag_item na <> None -> flag_item nb <> None ->
+    (forall a, matches_arg na false a = true -> matches_arg nb false a = false) ->
+    forall s vs s',
+      G s -> many_body (ev env na nb va vb) false s = (ROk (VList vs), s') ->
+      exists es, log s' = rev es ++ log s /\ Forall2 (own na nb va vb) vs es /\
+                 StronglySorted (fun a b => fst a < fst b) es /\ Forall (fun e => cand na nb s (fst e)) es.
+Proof. exact many_choice_in_line_order. Qed.
+Print Assumptions C07_repeated_choice_in_line_order.
 
 Example C07_example :
   let a := PFlag (mkNamed [97%N] [] [] None) (VNum 1) None in
